@@ -402,6 +402,10 @@ impl<'t, 'c> Ser<'t, 'c> {
             if self.cfg.outer_ws && self.t.chance(128) {
                 self.push("\n");
             }
+        } else if self.cfg.outer_ws && self.t.chance(40) {
+            // leading blanks are only allowed when there is no XML declaration
+            let b = *self.t.pick(&["\n", " ", "\n  ", "\t", "\n\n\n\n", "        "]);
+            self.push(b);
         }
         self.misc();
         if self.cfg.doctype && self.t.chance(30) {
